@@ -21,15 +21,18 @@ def pattern(rx):
         PATTERNS.append((re.compile(rx), f)); return f
     return deco
 
+_STDPATH = re.compile(r'\b(?:std|core|alloc)::(?:[a-z_0-9]+::)+(?=[A-Z])')
 def std_models(E, callee, args, argtys, callee0):
     h = _cache.get(callee)
     if h is None:
         h = False
-        if callee in EXACT: h = (EXACT[callee], None)
-        else:
+        # the same std item prints with or without its module path depending on what the calling module imports
+        for name in (callee, _STDPATH.sub('', callee), callee.replace('std::slice::', 'core::slice::').replace('std::str::', 'core::str::').replace('std::char::', 'char::').replace('core::char::', 'char::')):
+            if name in EXACT: h = (EXACT[name], None); break
             for rx, f in PATTERNS:
-                m = rx.fullmatch(callee)
+                m = rx.fullmatch(name)
                 if m: h = (f, m); break
+            if h: break
         _cache[callee] = h
     if h is False: return NotImplemented
     return h[0](E, h[1], args, callee0)
